@@ -1,7 +1,7 @@
 SPECIFICATION Spec
 CONSTANTS
   NTok = 3
-  MaxL = 2
+  MaxL = 1
   MaxR = 1
   Meas = "COSINE"
   AllowEmpty = TRUE
